@@ -2381,7 +2381,13 @@ class OpHarness:
         elif slot == 1:
             args = [fresh_exc(ctx, "err")]
         if h is None:
-            raise PathEnd()
+            # the member is subscribed without a handler for this notification: the step is "nothing happens" and must still refine the spec's
+            # step; a missing on_error handler raises the error back into the member that reported it
+            if slot == 1:
+                self.fail(ctx, uid + "/subscribes-the-member-with-an-on_error-handler", "an inner source is subscribed without an on_error handler: its error is raised back into it")
+                return
+            from .values import Native as _Native
+            h = _Native("no-handler-given", lambda it_, a, k: None)
         try:
             it.call(h, args, {})
         except PyExc as e:
